@@ -38,8 +38,16 @@ def stored(rate):
     ns = {"ExchangeRate": lambda a, m, b, t: (a, m, b, t), "Currency": lambda s: s,
           "Decimal": lambda v, p=None: Fraction(v) if not isinstance(v, str) else Fraction(v),
           "Fraction": Fraction}
-    a, m, b, t = eval(repr(rate), ns)  # noqa: S307 - controlled namespace
-    return a, Fraction(m), b, Fraction(t)
+    try:
+        a, m, b, t = eval(repr(rate), ns)  # noqa: S307 - controlled namespace
+        return a, Fraction(m), b, Fraction(t)
+    except Exception:  # noqa: BLE001
+        # repr() is not part of the property: fall back to the attributes behind it
+        try:
+            return (rate.unit_currency.symbol, F(rate._unit_multiple), rate.term_currency.symbol,
+                    F(rate._term_amount))
+        except AttributeError:
+            raise RuntimeError("harness: cannot observe the stored multiple / term amount of an ExchangeRate")
 
 
 @st.composite
@@ -165,11 +173,7 @@ def _num(enc):
 
 def check_normal_form(ctx, tag, rate, true_rate, what):
     """Normal form + accuracy of one ExchangeRate against the exact rate."""
-    try:
-        a, m, b, t = stored(rate)
-    except Exception as exc:  # noqa: BLE001
-        ctx.viol(f"{tag}/repr", f"repr of {what} not evaluable: {rate!r} ({exc})")
-        return None
+    a, m, b, t = stored(rate)
     k = 0
     mm = m
     while mm > 1 and mm % 10 == 0:
